@@ -77,7 +77,23 @@ def concrete_replay(build, cfg, model_values):
 def handle(run, results, build, what='entries differ from the oracle', signature=None):
     for res in results:
         if res.get('error'):
-            run.harness_error('%s %s: %s' % (res['group'], res['cfg'], res['error'][:600]))
+            # an exception of the package on an admissible input is a violation -- but only when the property module can show
+            # it on the real (compiled, float) build; otherwise it is a harness error (exit 2), never a VIOLATION line
+            hook = getattr(importlib.import_module(build.__module__), 'real_exception', None)
+            real = None
+            if hook is not None and '/repo/compmech/' in res['error']:
+                try:
+                    real = hook(res['cfg'])
+                except Exception as e:
+                    real = None
+            if real:
+                run.obligations += 1
+                cfg = res['cfg']
+                run.violation('%s/%s/raises-%s' % (res['group'], cfg.get('variant', cfg.get('rel', '-')), res['error'].split(':')[0]),
+                              '%s: the call raises on an admissible input -- %s; on the compiled build: %s' % (res['group'], res['error'].split('\n')[0][:200], real),
+                              {'cfg': cfg, 'symbolic_run': res['error'][:600], 'compiled_build': real})
+            else:
+                run.harness_error('%s %s: %s' % (res['group'], res['cfg'], res['error'][:600]))
             continue
         if res.get('oob'):
             from .cysym import KernelOOB
